@@ -7,9 +7,15 @@ impl GroupDeterminer {
 
     #[verifier::external_body]
     pub fn combinator(&self) -> (r: Option<Combinator>) ensures r == self.comb(), { unimplemented!() }
-    /// opaque: whether the next tokens are this determiner's pattern
+    /// whether the next tokens of `input` are this determiner's pattern.  A pure function of the stream reference: valid
+    /// between two consuming calls only (syn's cursor sits behind a Cell) - see the note at `scan_step`
+    pub uninterp spec fn matches(&self, input: &ParseBuffer) -> bool;
+    /// whether `ts` is a complete operand of type T for this determiner (`check_parsed`: syn can parse it as T)
+    pub uninterp spec fn parsed_ok<T>(&self, ts: Seq<Tok>) -> bool;
     #[verifier::external_body]
-    pub fn check_input(&self, input: ParseStream<'_>) -> (r: bool) { unimplemented!() }
+    pub fn check_input(&self, input: ParseStream<'_>) -> (r: bool) ensures r == self.matches(input), { unimplemented!() }
+    #[verifier::external_body]
+    pub fn check_parsed<T: Parse>(&self, input: TokenStream) -> (r: bool) ensures r == self.parsed_ok::<T>(input@), { unimplemented!() }
     #[verifier::external_body]
     pub fn erase_input<'b>(&self, input: ParseStream<'b>) -> (r: syn::Result<ParseStream<'b>>) { unimplemented!() }
 }
@@ -32,3 +38,19 @@ pub open spec fn mk_group(c: Combinator, deferred: bool, wrap: bool) -> ActionGr
 pub open spec fn next_group(c: Option<Combinator>, deferred: bool, wrap: bool) -> Option<ActionGroup> {
     match c { Some(x) => Some(mk_group(x, deferred, wrap)), None => None }
 }
+
+// ---------------------------------------------------------------- parse_until: one evaluation of the scan condition (C14)
+
+/// k is the FIRST row of the determiner table (in table order) whose pattern stands at the current position
+pub open spec fn is_first_match(ds: Seq<GroupDeterminer>, input: &ParseBuffer, k: int) -> bool {
+    0 <= k < ds.len() && ds[k].matches(input) && forall|j: int| 0 <= j < k ==> !(#[trigger] ds[j]).matches(input)
+}
+pub open spec fn no_match(ds: Seq<GroupDeterminer>, input: &ParseBuffer) -> bool {
+    forall|j: int| 0 <= j < ds.len() ==> !(#[trigger] ds[j]).matches(input)
+}
+/// the operand in front of the operator is complete (or empty where an empty operand is allowed)
+pub open spec fn unit_end_ok<T>(d: GroupDeterminer, ts: Seq<Tok>, allow_empty: bool) -> bool {
+    (ts.len() == 0 && allow_empty) || d.parsed_ok::<T>(ts)
+}
+/// marker type that carries the lifted pieces of the free function `parse_until`
+pub struct ParseUntil { _p: () }
